@@ -80,6 +80,10 @@ static int G_tid_next = 1;
 #define SITE_MAX 256
 static struct { const char *func; long n; } G_sites[SITE_MAX]; static int G_nsites;
 
+static int G_outfd = -1;
+static vf_case *G_cur;
+static volatile int G_desc_emitted;
+static void emit_desc_early(void);
 static size_t hptr(void *p, size_t cap) { uint64_t x = (uint64_t)(uintptr_t)p; x ^= x >> 33; x *= 0xff51afd7ed558ccdULL; x ^= x >> 29; return (size_t)(x & (cap - 1)); }
 static void ledger_grow(void)
 {
@@ -127,6 +131,7 @@ void *vf_malloc(size_t size, const char *file, int line, const char *func)
         T_fault_seen++;
         if (T_fault_seen == T_fault_k) { T_fault_fired = 1; return NULL; }
     } else if (T_fault_func && strstr(func, T_fault_func)) T_fault_seen++;
+    if (G_cur && !G_desc_emitted && strstr(file, "/SRC/")) emit_desc_early();
     maybe_yield();
     void *p = malloc(size ? size : 1);
     if (!p) return NULL;
@@ -203,8 +208,6 @@ int sp_ienv(int ispec)
     int i = 1; input_error("sp_ienv", &i); return 0;
 }
 
-static int G_outfd = -1;
-static vf_case *G_cur;
 /* ======================================================================= events */
 static __thread long T_ev[4]; static __thread int T_ev_first[4];
 void slu_verif_event(int kind, int a, int b)
@@ -238,6 +241,15 @@ static void jesc(char *dst, size_t dn, const char *src)
     }
     dst[k] = 0;
 }
+static void emit_desc_early(void)
+{
+    /* description of the running case, written before the first library allocation so that the
+       supervisor can describe a case that dies inside the library */
+    if (__atomic_exchange_n(&G_desc_emitted, 1, __ATOMIC_RELAXED)) return;
+    char d[1000], line[1200]; jesc(d, sizeof d, G_cur->desc);
+    snprintf(line, sizeof line, "{\"t\":\"desc\",\"i\":%ld,\"desc\":\"%s\"}\n", G_cur->index, d);
+    out_line(line);
+}
 void vf_abort(const char *msg)
 {
     if (vf_abort_jmp) { snprintf(vf_abort_msg, sizeof vf_abort_msg, "%s", msg); longjmp(*vf_abort_jmp, 1); }
@@ -267,7 +279,7 @@ static void on_alarm(int sig)
 void vf_viol(vf_case *c, const char *key, const char *fmt, ...)
 {
     if (c->verdict == 1) return;   /* keep the first violation */
-    c->verdict = 1; snprintf(c->key, sizeof c->key, "%s", key);
+    c->verdict = 1; snprintf(c->key, sizeof c->key, "%s%s", key, c->notes);
     va_list ap; va_start(ap, fmt); vsnprintf(c->msg, sizeof c->msg, fmt, ap); va_end(ap);
     if (c->verbose) fprintf(stderr, "VIOL[%s] %s\n", c->key, c->msg);
 }
@@ -282,6 +294,15 @@ void vf_desc(vf_case *c, const char *fmt, ...)
 {
     size_t l = strlen(c->desc); if (l + 2 >= sizeof c->desc) return;
     va_list ap; va_start(ap, fmt); vsnprintf(c->desc + l, sizeof c->desc - l, fmt, ap); va_end(ap);
+}
+void vf_note(vf_case *c, const char *note)
+{
+    /* context that becomes part of violation keys of this case: appended to leak keys by vf_check_ledger and,
+       by the supervisor, to the key of a death (crash / sanitizer report / hang / abort) of this case */
+    if (strstr(c->notes, note)) return;
+    size_t l = strlen(c->notes); if (l + strlen(note) + 2 >= sizeof c->notes) return;
+    c->notes[l++] = '+'; strcpy(c->notes + l, note);
+    char line[200]; snprintf(line, sizeof line, "{\"t\":\"note\",\"i\":%ld,\"s\":\"%s\"}\n", c->index, note); out_line(line);
 }
 void vf_sig(vf_case *c, const void *p, size_t n) { c->sig = fnv64(c->sig ? c->sig : FNV0, p, n); }
 void vf_sig_u64(vf_case *c, uint64_t v) { vf_sig(c, &v, sizeof v); }
@@ -299,7 +320,7 @@ void vf_check_ledger(vf_case *c, const char *where)
         vf_block b[8]; int k = vf_ledger_list(b, 8);
         /* key by the allocation site function of the oldest leaked block */
         int o = 0; for (int i = 1; i < k; i++) if (b[i].seq < b[o].seq) o = i;
-        char key[160]; snprintf(key, sizeof key, "leak@%s", b[o].func);
+        char key[200]; snprintf(key, sizeof key, "leak@%s", b[o].func);
         char sites[300] = ""; for (int i = 0; i < k; i++) { size_t l = strlen(sites); snprintf(sites + l, sizeof sites - l, "%s%s:%d(%zu)", i ? "," : "", b[i].func, b[i].line, b[i].size); }
         vf_viol(c, key, "%s: %ld block(s), %ld bytes still allocated after the caller destroyed everything it was handed: %s", where, live, vf_ledger_live_bytes(), sites);
         vf_ledger_purge();
@@ -356,7 +377,7 @@ int main(int argc, char **argv)
         c.variant_san = 3;
 #endif
         rng_seed(&c.rng, seed, ph ^ (uint64_t)prec, (uint64_t)i);
-        G_cur = &c;
+        G_cur = &c; G_desc_emitted = 0;
         char line[96]; snprintf(line, sizeof line, "{\"t\":\"start\",\"i\":%ld}\n", i); out_line(line);
         vf_ledger_reset_counters(); vf_events_reset(); vf_fault_arm(NULL, 0); vf_ienv_default();
         vf_set_junk((int)(rng_u64(&c.rng) % 4 == 0 ? 256 : (int[]){ 0x00, 0xFF, 0xA5 }[i % 3]));
